@@ -1,6 +1,7 @@
 """C36 -- flow files round-trip every flow type; reading arbitrary bytes fails only with FlowReadException.
 
-Three kinds of case (1 in 8 is a round-trip case, 1 in 8 a writer history with failed saves, the rest are hostile-bytes cases):
+Four kinds of case (1 in 8 is a round-trip case, 1 in 8 a writer history with failed saves, 1 in 8 a backup round trip -- after
+the fixed matrix flow type x edit class, which runs first in every tier --, the rest are hostile-bytes cases):
 
 (a) round trip (metamorphic + differential): a sequence of 1-20 generated flows of mixed type (vf/gen/flows.py: every
     serialised field randomised) is written with the real FlowWriter / FilteredFlowWriter (BytesIO or a real file) and read
@@ -23,6 +24,12 @@ Three kinds of case (1 in 8 is a round-trip case, 1 in 8 a writer history with f
                                           codec) to the flow's state -- in particular the saves AFTER a failed one (save_after_failed_save)
       history_file_reads_back             at the end every file reads back (real FlowReader) to exactly the successfully saved
                                           flows, in order
+(d) backup behaviour across save + load: a generated flow of each type gets backup() and then edits confined to the type-specific
+    part (request / response / websocket / messages / dns message), to the base part (comment / marked / metadata / error), to
+    both, or no edit; it is saved and loaded with the real writer / reader.  get_state() alone cannot show a lost backup, so
+    the monitors (backup_roundtrip.<edit class>) compare behaviour: modified() of the original and of the loaded flow equal the
+    generator's expectation (an edit was made or not), both hold a backup, and after revert() both are in exactly the state
+    captured before backup() and report modified() False.
 (b) hostile bytes: byte/bit/length-prefix/type-tag mutations of valid files, structurally valid records that are not flow
     states (keys removed, values of the wrong type, unknown `type`, old/unknown/odd `version`, bytes keys), non-dict records,
     nestings of depth 10..5000, HAR look-alikes, random bytes; read through BytesIO or a BufferedReader.  Monitor:
@@ -58,7 +65,8 @@ LEVEL = "exploration"
 BUDGET = {"quick": (30_000, 16), "thorough": (3_000_000, 180)}
 WORKERS = {"quick": 2, "thorough": 16}
 REQUIRED = ["roundtrip_state", "roundtrip_attributes", "ref_decode_of_written_file", "reader_accepts_ref_encoding", "reserialise_same_states", "read_only_flowreadexception",
-            "failed_save_leaves_file_unchanged", "save_after_failed_save", "history_file_reads_back"]
+            "failed_save_leaves_file_unchanged", "save_after_failed_save", "history_file_reads_back",
+            "backup_roundtrip.type_specific_only", "backup_roundtrip.base_only", "backup_roundtrip.both", "backup_roundtrip.none"]
 ENGINE = "direct"
 TECHNIQUE = "round-trip + reference-codec differential; totality of the reader on mutated files under a step budget"
 RULE = (
@@ -68,7 +76,9 @@ RULE = (
     "(or built from scratch); signature = (mutation family, reader variant, outcome: flows accepted / site of the error that became "
     "FlowReadException / escaping exception). Non-trivial: round-trip cases with at least one flow; hostile cases whose bytes differ from "
     "the valid base file. Every 8th case (offset 4): a writer history of 3-8 saves on 1-2 writers where ~40% of the flows are unserialisable "
-    "(8 fault kinds); signature = (set of fault kinds, writer variants, number of successful saves after a failed one)"
+    "(8 fault kinds); signature = (set of fault kinds, writer variants, number of successful saves after a failed one). First in every run and "
+    "every 8th case (offset 2): backup() + edit class {type-specific only, base only, both, none} on a flow of a given type, then save + load; "
+    "signature = (flow type, edit class)"
 )
 ASSUMPTIONS = [
     "str values contain no lone surrogates (not encodable as UTF-8, cannot be produced by decoding network data with the codecs mitmproxy uses)",
@@ -379,6 +389,128 @@ def case_fault_history(ctx, tmpdir):
             t.close()
     sig = ("faults", tuple(sorted(faults)), tuple(sorted(variants)), min(n_ok_after_fail, 3))
     ctx.case(sig, True, {"case": "fault-history", "history": hist})
+
+
+# --------------------------------------------------------------------------------------------- (d) backup behaviour across save + load
+
+EDIT_CLASSES = ("type_specific_only", "base_only", "both", "none")
+
+
+def edit_type_specific(r, f, kind):
+    """Change only what the flow type adds to the state (request / response / websocket / messages); always a real change."""
+    from mitmproxy import tcp as _tcp, udp as _udp, websocket as _ws
+
+    if kind in ("http", "websocket"):
+        c = r.randrange(4)
+        if kind == "websocket" and c < 2:
+            if c == 0:
+                m = _ws.WebSocketMessage(1, True, b"edited", 946681300.0)
+                f.websocket.messages.append(m)
+            else:
+                f.websocket.close_code = 4000 if f.websocket.close_code != 4000 else 4001
+            return "websocket"
+        if c == 2 and f.response is not None:
+            f.response.status_code = 418 if f.response.status_code != 418 else 419
+            return "response"
+        if c == 3:
+            f.request.headers["x-edited"] = "1" if f.request.headers.get("x-edited") != "1" else "2"
+            return "request.headers"
+        f.request.content = (f.request.raw_content or b"") + b"-edited"
+        return "request.content"
+    if kind in ("tcp", "udp"):
+        if f.messages and r.random() < 0.5:
+            f.messages[0].content = f.messages[0].content + b"!"
+            return "message.content"
+        f.messages.append((_tcp.TCPMessage if kind == "tcp" else _udp.UDPMessage)(True, b"edited", 946681300.0))
+        return "messages.append"
+    f.request.id = f.request.id + 1
+    return "dns.request.id"
+
+
+def edit_base(r, f):
+    """Change only fields of the Flow base class; always a real change."""
+    c = r.randrange(4)
+    if c == 0:
+        f.comment = f.comment + " edited"
+        return "comment"
+    if c == 1:
+        f.marked = ":edited:" if f.marked != ":edited:" else ":edited2:"
+        return "marked"
+    if c == 2:
+        f.metadata["c36_edited"] = f.metadata.get("c36_edited", 0) + 1 if isinstance(f.metadata.get("c36_edited", 0), int) else 1
+        return "metadata"
+    f.error = None if f.error else mflow.Error("edited", 946681300.0)
+    return "error"
+
+
+def save_load(f):
+    b = io.BytesIO()
+    FlowWriter(b).add(f)
+    b.seek(0)
+    out = list(FlowReader(b).stream())
+    if len(out) != 1:
+        raise ValueError(f"{len(out)} flows loaded from a file of one")
+    return out[0]
+
+
+def case_backup_roundtrip(ctx, r, kind, cls):
+    """backup() + edits of a given class, then save + load: the loaded flow must behave like the original with respect to
+    backup presence, modified() and the state reached by revert()."""
+    f = G.gen_flow(r, kind, size="small", exotic_floats=False)  # NaN never equals itself: keep modified() meaningful
+    if f._backup:
+        f.revert()
+    state0 = T.norm(copy.deepcopy(f.get_state()))
+    f.backup()
+    touched = []
+    if cls in ("type_specific_only", "both"):
+        touched.append(edit_type_specific(r, f, kind))
+    if cls in ("base_only", "both"):
+        touched.append(edit_base(r, f))
+    ctx.count("backup_roundtrip." + cls)
+    W = {"kind": kind, "edit_class": cls, "edited": touched}
+    sig = ("backup-rt", kind, cls)
+    sample = {"case": "backup-roundtrip", **W}
+    try:
+        g = save_load(f)
+    except Exception as e:
+        ctx.violation("backup-roundtrip-save-load-raises", {**W, "exc": short(repr(e)), "site": exc_site(e)})
+        ctx.case(sig, True, sample)
+        return
+    want_modified = cls != "none"
+    o_mod, g_mod = f.modified(), g.modified()
+    if o_mod != want_modified:
+        ctx.violation("original-modified-wrong", {**W, "expected": want_modified, "got": o_mod})
+    if g_mod != want_modified:
+        ctx.violation("loaded-flow-modified-differs", {**W, "expected": want_modified, "original": o_mod, "loaded": g_mod})
+    o_has, g_has = f._backup is not None, g._backup is not None
+    if not o_has or g_has != o_has:
+        ctx.violation("backup-lost-in-file", {**W, "original_has_backup": o_has, "loaded_has_backup": g_has})
+    try:
+        f.revert()
+        g.revert()
+    except Exception as e:
+        ctx.violation("revert-raises", {**W, "exc": short(repr(e)), "site": exc_site(e)})
+        ctx.case(sig, True, sample)
+        return
+    so, sg = T.norm(copy.deepcopy(f.get_state())), T.norm(copy.deepcopy(g.get_state()))
+    if not T.same(state0, so):
+        ctx.violation("original-revert-not-exact", {**W, "diff": T.diff(state0, so)})
+    if not T.same(state0, sg):
+        ctx.violation("loaded-flow-revert-differs", {**W, "diff": T.diff(state0, sg)}, classify_roundtrip(state0, sg))
+    if f.modified() or g.modified():
+        ctx.violation("modified-after-revert", {**W, "original": f.modified(), "loaded": g.modified()})
+    ctx.case(sig, True, sample)
+
+
+def backup_matrix(ctx):
+    """The fixed matrix flow type x edit class, split over the workers; runs first in every tier."""
+    k = 0
+    for kind in G.KINDS:
+        for cls in EDIT_CLASSES:
+            for rep in range(3):
+                if k % ctx.nworkers == ctx.worker:
+                    case_backup_roundtrip(ctx, ctx.case_rng(-1000 - k, "c36-backup"), kind, cls)
+                k += 1
 
 
 # --------------------------------------------------------------------------------------------- (b) hostile bytes
@@ -719,11 +851,14 @@ def run(ctx):
     tmpdir = tempfile.mkdtemp(prefix="vf-c36-")
     try:
         pool = base_pool(ctx)
+        backup_matrix(ctx)
         for i in ctx.cases():
             if i % 8 == 0:
                 case_roundtrip(ctx, tmpdir)
             elif i % 8 == 4:
                 case_fault_history(ctx, tmpdir)
+            elif i % 8 == 2:
+                case_backup_roundtrip(ctx, ctx.rng, ctx.rng.choice(G.KINDS), ctx.rng.choice(EDIT_CLASSES))
             else:
                 case_hostile(ctx, pool)
     finally:
